@@ -37,7 +37,9 @@ MUTATING_METHODS = {
     "appendleft", "popleft",
 }  # fmt: skip
 SHALLOW_COPIES = {"list", "dict", "set", "tuple", "sorted", "frozenset", "OrderedDict", "Namespace", "copy"}
-DEEP_EXCEPT_TUPLE = {"clone", "recreate_branches", "strip_meta", "namespace_to_dict", "dict_to_namespace"}
+# copy primitives (their bodies are verified by rule C08.a); strip_meta / namespace_to_dict / dict_to_namespace
+# are analysed like any other function, so a conditional copy shows up as a possible alias of the argument
+DEEP_EXCEPT_TUPLE = {"clone", "recreate_branches"}
 DEEP_COPIES = {"deepcopy"}
 READ_THROUGH = {"get", "items", "values", "keys", "get_value_and_parent", "getattr", "next", "iter", "enumerate", "zip", "reversed", "filter", "vars", "get_sorted_keys", "as_dict", "as_flat"}
 FRESH_RESULT_BUILTINS = {"len", "str", "int", "float", "bool", "repr", "isinstance", "hasattr", "type", "id", "range", "any", "all", "min", "max", "sum", "callable", "format", "print", "join"}
@@ -46,6 +48,8 @@ TYPE_U = frozenset({"dict", "Namespace", "list", "str", "NestedArg", "tuple", "s
 TYPE_ALIASES = {"argparse.Namespace": "Namespace", "OrderedDict": "dict", "MappingProxyType": "other"}
 SUBSCRIPT_STORE_TYPES = frozenset({"dict", "Namespace", "list", "other"})
 STRKEY_STORE_TYPES = frozenset({"dict", "Namespace", "other"})
+
+DECLARED_DEFAULT = "g:declared default of an action (action.default)"
 
 Val = FrozenSet[Tuple[str, str]]
 EMPTY: Val = frozenset()
@@ -110,6 +114,7 @@ class Effects:
         self._cfg_of = cfg_of or (lambda fn: CFG(fn))
         self.mut: Dict[str, Dict[str, str]] = {}  # fref -> origin -> level
         self.ret: Dict[str, Dict[str, Set[str]]] = {}  # fref -> param -> levels of the returned value
+        self.ret_elems: Dict[str, Dict[int, Dict[str, Set[str]]]] = {}  # tuple returns: element index -> param -> levels
         self.witness: Dict[Tuple[str, str], Mutation] = {}  # (fref, origin) -> strongest mutation found
         self.shared_globals = self._find_shared_globals() if globals_tracked else {}
         self.iterations = 0
@@ -221,6 +226,9 @@ class Effects:
                 # class-level mutable attribute read through self
                 if isinstance(e.value, ast.Name) and e.value.id in ("self", "cls") and e.attr in class_mut_attrs:
                     out = out | frozenset({(f"g:{class_mut_attrs[e.attr]}", TOP)})
+                if e.attr == "default" and isinstance(e.ctx, ast.Load):
+                    # the declared default of an action is shared by every later parse
+                    out = out | frozenset({(DECLARED_DEFAULT, TOP)})
                 return out
             if isinstance(e, ast.Subscript):
                 if isinstance(e.slice, ast.Slice):
@@ -334,6 +342,28 @@ class Effects:
                 return out
             # --- external callee: mutating-method vocabulary ---
             return EMPTY
+
+        def bind_elems(target: ast.Tuple, c: ast.Call, st, out) -> bool:
+            """a, b, c = f(...) where f returns tuples: bind element by element through f's element summaries."""
+            targets, how = me.cg.resolve(fref, c)
+            targets = [t for t in targets if t in me.cg.funcs and t in me.ret_elems]
+            if not targets:
+                return False
+            recv = c.func.value if isinstance(c.func, ast.Attribute) else None
+            for i, el in enumerate(target.elts):
+                v: Val = EMPTY
+                for t in targets:
+                    tfn = me.cg.funcs[t]
+                    amap = map_args(c, tfn, func_params(tfn), recv, t)
+                    for q, levels in me.ret_elems[t].get(i, {}).items():
+                        if q in amap:
+                            av = amap[q](st)
+                            for rl in levels:
+                                v = v | relate(av, rl)
+                bind(el, v, out) if not isinstance(el, ast.Name) else out.__setitem__(el.id, v)
+                if isinstance(el, ast.Name):
+                    out[("?", el.id)] = TYPE_U
+            return True
 
         def relate(v: Val, rl: str) -> Val:
             """value returned = f(param at level rl), param bound to v."""
@@ -605,6 +635,8 @@ class Effects:
                             out[("?", t.id)] = types_of_value(s.value)
                             for fk in [k for k in out if isinstance(k, tuple) and k[0] == "f" and k[1] == t.id]:
                                 del out[fk]
+                        elif isinstance(t, ast.Tuple) and isinstance(s.value, ast.Call) and bind_elems(t, s.value, st, out):
+                            pass
                         else:
                             bind(t, v, out)
                     elif isinstance(t, (ast.Subscript, ast.Attribute)):
@@ -647,6 +679,15 @@ class Effects:
             if isinstance(s, ast.Return):
                 if s.value is not None:
                     effects_of_expr(s.value, st)
+                    if isinstance(s.value, ast.Tuple):
+                        re_ = me.ret_elems.setdefault(fref, {})
+                        for i, el in enumerate(s.value.elts):
+                            for o, l in ev(el, st):
+                                if not o.startswith("g:"):
+                                    cur = re_.setdefault(i, {}).setdefault(o, set())
+                                    if l not in cur:
+                                        cur.add(l)
+                                        changed[0] = True
                     v = ev(s.value, st)
                     for o, l in v:
                         if not o.startswith("g:"):
